@@ -577,3 +577,7 @@ func TestC03(t *testing.T) {
 		Gen:  gen, Run: run,
 	})
 }
+
+func FuzzC03(f *testing.F) {
+	pbt.Fuzz(f, pbt.Prop[Case]{ID: "C03", Name: "fuzz", Rule: "native coverage-guided fuzzing (go test -fuzz) of the same generator and oracle: the fuzzer's bytes are rapid's random stream", Gen: gen, Run: run})
+}
